@@ -79,7 +79,7 @@ theorem readHeader_member (crc : Bytes → Nat) (m : Member) (t : Bytes) :
   have f16 : ((4 : UInt8) &&& 16 != 0) = false := by decide
   have f2 : ((4 : UInt8) &&& 2 != 0) = false := by decide
   have hl : ¬ (t.length + 1 + 1 + 1 + 1 + 1 + 1 < 6) := by omega
-  simp [readHeader, Member.header, flagSet, readOptString, memberGzHeader, f8, f16, f2, hl]
+  simp [readHeader, readExtra, readHdrCrc, Member.header, flagSet, readOptString, memberGzHeader, f8, f16, f2, hl]
 
 theorem expectedMemberSize_member (m : Member) :
     expectedMemberSize (memberGzHeader m).extra = some (m.bsizeLo.toNat + 256 * m.bsizeHi.toNat + 1) := by
@@ -129,7 +129,7 @@ theorem readHeader_member_prefix (crc : Bytes → Nat) (m : Member) (k : Nat) (h
   have : k = 0 ∨ k = 1 ∨ k = 2 ∨ k = 3 ∨ k = 4 ∨ k = 5 ∨ k = 6 ∨ k = 7 ∨ k = 8 ∨ k = 9 ∨ k = 10 ∨ k = 11
       ∨ k = 12 ∨ k = 13 ∨ k = 14 ∨ k = 15 ∨ k = 16 ∨ k = 17 := by omega
   rcases this with rfl | rfl | rfl | rfl | rfl | rfl | rfl | rfl | rfl | rfl | rfl | rfl | rfl | rfl | rfl | rfl | rfl | rfl <;>
-    simp [readHeader, Member.header, flagSet, readOptString, f8, f16, f2]
+    simp [readHeader, readExtra, readHdrCrc, Member.header, flagSet, readOptString, f8, f16, f2]
 
 theorem readMember_member_prefix (c : Codec) {m : Member} (h : m.WellFramed c) (k : Nat) (hk : k < m.size) :
     readMember .repaired c (m.bytes.take k) = .error (if k = 0 then .eof else .unexpectedEOF) := by
